@@ -277,6 +277,23 @@ func runC01(k *eng.Check, tier string) {
 		k.Require("front-end-consults-all-sources", name+"#memtable", "the read entry point consults the memtable", mt, c.Pos(fn.Pos()), "nbs.memtable not read")
 		k.Require("front-end-consults-all-sources", name+"#tables", "the read entry point consults the table set", ts, c.Pos(fn.Pos()), "nbs.tables not read")
 	}
+	// a generational HasMany answers "nothing is absent" (nil set, nil error) only when the set of addresses still
+	// absent after consulting the generations is empty -- in particular not merely because there is no ghost store
+	if fn := k.Fn("(*store/nbs.GenerationalNBS).HasMany"); fn != nil {
+		nilSet := eng.ResultPoints(fn, 0, isNil)
+		tg := eng.NewSet()
+		se := eng.SuccessExits(fn)
+		for in := range nilSet.I {
+			if se.I[in] {
+				tg.AddI(in)
+			}
+		}
+		empty := eng.CondEdgesP(fn, func(v ssa.Value) bool {
+			b, ok := eng.IsCompare(v, token.EQL)
+			return ok && isConstInt(b.Y, 0) && eng.Mentions(b.X, func(x ssa.Value) bool { cc, ok := x.(*ssa.Call); return ok && eng.CalleeName(cc) == "builtin:len" })
+		}, true)
+		k.OnlyAfter("presence-verdict-from-all-sources", fn, "HasMany reports 'nothing absent' only on an edge where the remaining absent set is empty", tg, 1, empty)
+	}
 	for _, m := range []string{"Get", "Has", "HasMany", "GetMany", "GetManyCompressed"} {
 		name := "(*store/nbs.GenerationalNBS)." + m
 		fn := k.Fn(name)
